@@ -118,8 +118,9 @@ type world struct {
 	height map[int]int32
 	parent map[int]int
 	idOf   map[chainhash.Hash]int
-	// abstract outpoint -> real outpoint
+	// abstract outpoint -> real outpoint and its value
 	ops map[int]wire.OutPoint
+	val map[int]int64
 }
 
 func solve(h *wire.BlockHeader, limit *chaincfg.Params) {
@@ -135,7 +136,7 @@ func solve(h *wire.BlockHeader, limit *chaincfg.Params) {
 
 func buildWorld(descs []blkDesc) *world {
 	w := &world{params: newParams(), descs: descs, byID: map[int]*btcutil.Block{}, height: map[int]int32{0: 0},
-		parent: map[int]int{}, idOf: map[chainhash.Hash]int{}, ops: map[int]wire.OutPoint{}}
+		parent: map[int]int{}, idOf: map[chainhash.Hash]int{}, ops: map[int]wire.OutPoint{}, val: map[int]int64{}}
 	gen := btcutil.NewBlock(w.params.GenesisBlock)
 	w.byID[0] = gen
 	w.idOf[*gen.Hash()] = 0
@@ -158,10 +159,13 @@ func buildWorld(descs []blkDesc) *world {
 		cb.AddTxOut(&wire.TxOut{Value: val, PkScript: opTrue})
 		txs := []*wire.MsgTx{cb}
 		w.ops[d.id*opsPerBlock] = wire.OutPoint{Hash: cb.TxHash(), Index: 0}
+		w.val[d.id*opsPerBlock] = val
 		for j, o := range d.spends {
 			tx := wire.NewMsgTx(1)
 			prev, ok := w.ops[o]
+			v := w.val[o] // no fee: the output carries the whole input value
 			if !ok {
+				v = 1000
 				// an outpoint nobody created
 				var hsh chainhash.Hash
 				binary.LittleEndian.PutUint64(hsh[:], uint64(o)+1)
@@ -169,10 +173,11 @@ func buildWorld(descs []blkDesc) *world {
 				prev = wire.OutPoint{Hash: hsh, Index: 0}
 			}
 			tx.AddTxIn(&wire.TxIn{PreviousOutPoint: prev, Sequence: wire.MaxTxInSequenceNum})
-			tx.AddTxOut(&wire.TxOut{Value: 1000, PkScript: opTrue})
+			tx.AddTxOut(&wire.TxOut{Value: v, PkScript: opTrue})
 			tx.LockTime = uint32(d.id*opsPerBlock + j + 1)
 			txs = append(txs, tx)
 			w.ops[d.id*opsPerBlock+j+1] = wire.OutPoint{Hash: tx.TxHash(), Index: 0}
+			w.val[d.id*opsPerBlock+j+1] = v
 		}
 		utxs := make([]*btcutil.Tx, len(txs))
 		for i, t := range txs {
@@ -780,11 +785,377 @@ func parseOps(s string, descs []blkDesc) ([]string, bool) {
 
 var _ = bytes.Equal
 
+// ---------------------------------------------------------------------------
+// Generator: a small abstract simulation (chains, folds) to build mostly-valid
+// workloads; the expected answers come from the Lean model, not from here.
+
+type gw struct {
+	r      *core.Rand
+	descs  []blkDesc
+	byID   map[int]blkDesc
+	ops    []string
+	nextID int
+}
+
+func newGW(r *core.Rand) *gw { return &gw{r: r, byID: map[int]blkDesc{}, nextID: 1} }
+
+func (g *gw) chain(id int) []int { // genesis-side first, without genesis
+	var c []int
+	for id != 0 {
+		c = append([]int{id}, c...)
+		id = g.byID[id].parent
+	}
+	return c
+}
+
+func (g *gw) height(id int) int { return len(g.chain(id)) }
+
+// fold returns the unspent abstract outpoints of the chain ending in id and
+// the spent ones (for invalid choices).
+func (g *gw) fold(id int) (map[int]bool, []int) {
+	u := map[int]bool{}
+	var spent []int
+	for _, b := range g.chain(id) {
+		d := g.byID[b]
+		for j, o := range d.spends {
+			delete(u, o)
+			spent = append(spent, o)
+			u[b*opsPerBlock+j+1] = true
+		}
+		u[b*opsPerBlock] = true
+	}
+	return u, spent
+}
+
+// add creates a block on parent; kind: 0 valid, 1 missing input, 2 bad coinbase,
+// 3 double spend inside the block.
+func (g *gw) add(parent int, kind int, maxSpends int) int {
+	id := g.nextID
+	g.nextID++
+	d := blkDesc{id: id, parent: parent}
+	u, spent := g.fold(parent)
+	var avail []int
+	for o := range u {
+		avail = append(avail, o)
+	}
+	sort.Ints(avail)
+	n := 0
+	if maxSpends > 0 {
+		n = g.r.Intn(maxSpends + 1)
+	}
+	for j := 0; j < n && len(avail) > 0; j++ {
+		if j > 0 && g.r.Chance(1, 3) {
+			// spend the output of the previous transaction of this block
+			d.spends = append(d.spends, id*opsPerBlock+j)
+			continue
+		}
+		i := g.r.Intn(len(avail))
+		d.spends = append(d.spends, avail[i])
+		avail = append(avail[:i], avail[i+1:]...)
+	}
+	// an in-block chain may reference an output that an earlier in-block spend
+	// already consumed; repair by dropping duplicates
+	seen := map[int]bool{}
+	var sp []int
+	for _, o := range d.spends {
+		if !seen[o] {
+			seen[o] = true
+			sp = append(sp, o)
+		}
+	}
+	d.spends = sp
+	switch kind {
+	case 1:
+		var o int
+		switch {
+		case len(spent) > 0 && g.r.Bool():
+			o = spent[g.r.Intn(len(spent))]
+		case g.r.Bool():
+			o = 3999 * opsPerBlock
+		default:
+			o = id * opsPerBlock // own coinbase: immature
+		}
+		pos := g.r.Intn(len(d.spends) + 1)
+		d.spends = append(d.spends[:pos], append([]int{o}, d.spends[pos:]...)...)
+	case 2:
+		d.bad = true
+	case 3:
+		if len(d.spends) == 0 && len(avail) > 0 {
+			d.spends = append(d.spends, avail[0])
+		}
+		if len(d.spends) > 0 {
+			d.spends = append(d.spends, d.spends[0])
+		} else {
+			d.bad = true
+		}
+	}
+	if len(d.spends) >= opsPerBlock {
+		d.spends = d.spends[:opsPerBlock-1]
+	}
+	g.descs = append(g.descs, d)
+	g.byID[id] = d
+	return id
+}
+
+func (g *gw) deliver(id int) { g.ops = append(g.ops, "d"+strconv.Itoa(id)) }
+
+func (g *gw) maybeFlush() {
+	switch g.r.Intn(8) {
+	case 0:
+		g.ops = append(g.ops, "f")
+	case 1:
+		g.ops = append(g.ops, "i")
+	}
+}
+
+func (g *gw) blocksStr() string {
+	var bs []string
+	for _, d := range g.descs {
+		sp := "-"
+		if len(d.spends) > 0 {
+			var xs []string
+			for _, o := range d.spends {
+				xs = append(xs, strconv.Itoa(o))
+			}
+			sp = strings.Join(xs, ".")
+		}
+		b := fmt.Sprintf("%d:%d:%s", d.id, d.parent, sp)
+		if d.bad {
+			b += ":x"
+		}
+		bs = append(bs, b)
+	}
+	if len(bs) == 0 {
+		return "-"
+	}
+	return strings.Join(bs, ",")
+}
+
+func (g *gw) opsStr() string {
+	if len(g.ops) == 0 {
+		return "-"
+	}
+	return strings.Join(g.ops, ",")
+}
+
+// workload shapes ---------------------------------------------------------
+
+func wlLinear(r *core.Rand, n int) *gw {
+	g := newGW(r)
+	tip := 0
+	for i := 0; i < n; i++ {
+		tip = g.add(tip, 0, 3)
+		g.deliver(tip)
+		g.maybeFlush()
+	}
+	return g
+}
+
+// main chain of length a, then a side chain from fork point f of length b
+// (b > a - f triggers a reorganisation of depth a - f), optionally the old
+// branch grows back afterwards.
+func wlReorg(r *core.Rand, a, f, b int, back bool, invalidAt int) *gw {
+	g := newGW(r)
+	tip := 0
+	var main []int
+	for i := 0; i < a; i++ {
+		tip = g.add(tip, 0, 2)
+		main = append(main, tip)
+		g.deliver(tip)
+		g.maybeFlush()
+	}
+	side := 0
+	if f > 0 {
+		side = main[f-1]
+	}
+	for i := 0; i < b; i++ {
+		kind := 0
+		if i == invalidAt {
+			kind = 1 + r.Intn(3)
+		}
+		side = g.add(side, kind, 2)
+		g.deliver(side)
+		g.maybeFlush()
+	}
+	if back {
+		for g.height(tip) <= g.height(side) {
+			tip = g.add(tip, 0, 2)
+			g.deliver(tip)
+		}
+	}
+	return g
+}
+
+func wlInvalid(r *core.Rand) *gw {
+	g := newGW(r)
+	tip := g.add(0, 0, 0)
+	g.deliver(tip)
+	tip = g.add(tip, 0, 2)
+	g.deliver(tip)
+	bad := g.add(tip, 1+r.Intn(3), 2)
+	g.deliver(bad)
+	g.maybeFlush()
+	child := g.add(bad, 0, 1)
+	g.deliver(child) // refused: invalid ancestor
+	g.deliver(tip)   // duplicate
+	tip = g.add(tip, 0, 2)
+	g.deliver(tip)
+	return g
+}
+
+func wlTree(r *core.Rand, n int) *gw {
+	g := newGW(r)
+	ids := []int{0}
+	for i := 0; i < n; i++ {
+		var parent int
+		if r.Chance(3, 5) {
+			// extend one of the two highest blocks
+			best := 0
+			for _, id := range ids {
+				if g.height(id) >= g.height(best) && (g.height(id) > g.height(best) || r.Bool()) {
+					best = id
+				}
+			}
+			parent = best
+		} else {
+			parent = ids[r.Intn(len(ids))]
+		}
+		kind := 0
+		if r.Chance(1, 8) {
+			kind = 1 + r.Intn(3)
+		}
+		id := g.add(parent, kind, 3)
+		ids = append(ids, id)
+		g.deliver(id)
+		g.maybeFlush()
+		if r.Chance(1, 10) {
+			g.deliver(ids[r.Intn(len(ids)-1)+1])
+		}
+	}
+	return g
+}
+
 func (P) Generate(g *core.Gen) {
-	line := func(cache int, blocks, ops string, k int) string {
-		return fmt.Sprintf("C04 img %d 0 %s %s %d", cache, blocks, ops, k)
+	emit := func(class string, cache int, w *gw, stride int) {
+		c := cfg{cache: cache}
+		key := fmt.Sprintf("%d 0 %s %s", cache, w.blocksStr(), w.opsStr())
+		descs, ok1 := parseBlocks(w.blocksStr())
+		ops, ok2 := parseOps(w.opsStr(), descs)
+		if !ok1 || !ok2 {
+			panic("generator produced a malformed workload: " + key)
+		}
+		cached.close()
+		cached = doRun(key, c, descs, ops)
+		n := cached.n
+		off := 0
+		if stride > 1 {
+			off = g.R.Intn(stride)
+		}
+		for k := 1; k <= n; k++ {
+			if stride > 1 && k > 3 && (k+off)%stride != 0 {
+				continue
+			}
+			g.Case(class, k > 3, fmt.Sprintf("C04 img %s %d", key, k))
+		}
+		g.Case(class+"-range", false, fmt.Sprintf("C04 img %s %d", key, n+1))
 	}
-	for k := 1; k <= 40; k++ {
-		g.Case("linear", true, line(0, "1:0:-,2:1:8,3:2:16.25,4:3:-", "d1,d2,d3,d4", k))
+	r := g.R
+	if !g.Thorough() {
+		emit("linear", r.Intn(2), wlLinear(r, 3), 1)
+		emit("reorg", r.Intn(2), wlReorg(r, 2, 0, 3, false, -1), 1)
+		emit("reorg-deep", r.Intn(2), wlReorg(r, 3+r.Intn(2), r.Intn(2), 5, r.Bool(), -1), 2)
+		emit("reorg-invalid", r.Intn(2), wlReorg(r, 2, r.Intn(2), 3, false, r.Intn(3)), 1)
+		emit("invalid", r.Intn(2), wlInvalid(r), 1)
+		emit("tree", r.Intn(2), wlTree(r, 7), 2)
+	} else {
+		for i := 0; i < 8; i++ {
+			emit("linear", i%2, wlLinear(r, 2+r.Intn(5)), 1)
+		}
+		for i := 0; i < 16; i++ {
+			a := 1 + r.Intn(4)
+			f := r.Intn(a)
+			emit("reorg", i%2, wlReorg(r, a, f, a-f+1+r.Intn(2), r.Chance(1, 3), -1), 1)
+		}
+		for i := 0; i < 10; i++ {
+			a := 1 + r.Intn(4)
+			f := r.Intn(a)
+			b := a - f + 1 + r.Intn(2)
+			emit("reorg-invalid", i%2, wlReorg(r, a, f, b, r.Chance(1, 3), r.Intn(b)), 1)
+		}
+		for i := 0; i < 6; i++ {
+			emit("invalid", i%2, wlInvalid(r), 1)
+		}
+		for i := 0; i < 20; i++ {
+			emit("tree", i%2, wlTree(r, 6+r.Intn(8)), 1)
+		}
 	}
+	// malformed / boundary lines
+	for _, l := range []string{
+		"C04 img 2 0 1:0:- d1 1", "C04 img 0 0 1:1:- d1 1", "C04 img 0 0 1:0:- d2 1", "C04 img 0 0 1:0:- d1 0",
+		"C04 img 0 0 1:0:-:y d1 1", "C04 img 0 0 1:0:-,1:0:- d1 1", "C04 img 0 0 - - 1", "C04 img 0 0 - - 3", "C04 img 0 0 - - 4",
+		"C04 img 0 0 1:0:- d1", "C04 nop",
+	} {
+		g.Case("malformed", false, l)
+	}
+}
+
+// ---------------------------------------------------------------------------
+// Known finding F-C04-a.
+
+func fields(s string) map[string]string {
+	m := map[string]string{}
+	for _, t := range strings.Fields(s) {
+		if i := strings.IndexByte(t, '='); i > 0 {
+			m[t[:i]] = t[i+1:]
+		}
+	}
+	return m
+}
+
+// ClassifyMismatch recognises F-C04-a: the crash image lies inside the
+// activation window of a block delivery (after the block became known to the
+// index, before the last connect of the chain it activates), every observation
+// up to and including the reopened state agrees with the model, the final state
+// after re-delivery is exactly the one the model of the code predicts (second
+// and third component of the Lean `fin`), and that state has no more work than the
+// final state of the uninterrupted run (first component).
+func (P) ClassifyMismatch(line, goOut, leanOut string) string {
+	gf, lf := fields(goOut), fields(leanOut)
+	if len(gf) != len(lf) || gf["w"] == "" || gf["w"] == "-" {
+		return ""
+	}
+	for k, v := range gf {
+		if k != "fin" && lf[k] != v {
+			return ""
+		}
+	}
+	if !strings.HasPrefix(gf["r"], "ok,") {
+		return ""
+	}
+	g := strings.Split(gf["fin"], ";")
+	l := strings.Split(lf["fin"], ";")
+	if len(g) != 3 || len(l) != 3 {
+		return ""
+	}
+	if g[0] != g[1] || g[1] != l[1] || g[2] != l[2] || l[0] == l[1] {
+		return ""
+	}
+	t := strings.Fields(line)
+	if len(t) != 7 {
+		return ""
+	}
+	descs, ok := parseBlocks(t[4])
+	if !ok {
+		return ""
+	}
+	h := map[int]int{0: 0}
+	for _, d := range descs {
+		h[d.id] = h[d.parent] + 1
+	}
+	spec, _ := strconv.Atoi(l[0])
+	got, _ := strconv.Atoi(g[0])
+	if h[got] > h[spec] {
+		return ""
+	}
+	return "F-C04-a"
 }
